@@ -8,6 +8,8 @@ CXX       := /usr/bin/g++
 COMMON_FLAGS := -g -fno-omit-frame-pointer -D_GLIBCXX_ASSERTIONS -DNDEBUG -DDJINTEROP_VERIF
 SAN_FLAGS := -O1 -fsanitize=address,undefined -fno-sanitize-recover=undefined $(COMMON_FLAGS)
 OPT_FLAGS := -O2 -fsanitize=undefined -fno-sanitize-recover=undefined $(COMMON_FLAGS)
+# coverage measurement only (scripts/coverage.sh); never used by a registered check
+COV_FLAGS := -O0 --coverage -DVX_COVERAGE $(COMMON_FLAGS)
 
 HSRC := $(wildcard src/common/*.cpp) $(wildcard src/refcodec/*.cpp) $(wildcard src/model/*.cpp) $(wildcard src/checks/*.cpp)
 INCS  = -I$(REPO)/include -I$(BUILD)/lib-$(1)/include -I$(REPO)/src -I$(REPO)/ext/sqlite_modern_cpp -I$(REPO)/ext/date -Isrc -DDJINTEROP_SOURCE
@@ -46,6 +48,9 @@ endef
 
 $(eval $(call VARIANT,san,$(SAN_FLAGS)))
 $(eval $(call VARIANT,opt,$(OPT_FLAGS)))
+$(eval $(call VARIANT,cov,$(COV_FLAGS)))
+.PHONY: cov
+cov: $(BUILD)/vx-cov
 
 clean:
 	rm -rf $(BUILD)
